@@ -44,19 +44,23 @@ TopLevel(t) ==
 
 Paren(ts) == <<"(">> \o ts \o <<")">>
 
-RECURSIVE Min(_), Full(_), MinArgs(_, _), FullArgs(_, _)
+RECURSIVE MinP(_, _), Full(_), MinArgsP(_, _, _), FullArgs(_, _)
 \* child printed so that it can stand where a construct of level lv needs (at least / more than) lv
-Wrap(t, lv, strict) == IF TopLevel(t) < lv \/ (strict /\ TopLevel(t) = lv) THEN Paren(Min(t)) ELSE Min(t)
+\* (lp: every identifier leaf is written in parentheses of its own - redundant ones)
+Wrap(t, lv, strict, lp) == IF TopLevel(t) < lv \/ (strict /\ TopLevel(t) = lv) THEN Paren(MinP(t, lp)) ELSE MinP(t, lp)
 
-Min(t) ==
-  CASE t[1] = "id" -> <<t[2]>>
-    [] t[1] = "bin" -> Wrap(t[3], Level(t[2]), FALSE) \o <<t[2]>> \o Wrap(t[4], Level(t[2]), TRUE)    \* left to right
-    [] t[1] = "un" -> <<t[2]>> \o Wrap(t[3], PrefixLevel, FALSE)
-    [] t[1] = "idx" -> Wrap(t[2], PostfixLevel, FALSE) \o <<"[">> \o Min(t[3]) \o <<"]">>
-    [] t[1] = "call" -> <<t[2], "(">> \o MinArgs(t[3], 1) \o <<")">>
+MinP(t, lp) ==
+  CASE t[1] = "id" -> IF lp THEN Paren(<<t[2]>>) ELSE <<t[2]>>
+    [] t[1] = "bin" -> Wrap(t[3], Level(t[2]), FALSE, lp) \o <<t[2]>> \o Wrap(t[4], Level(t[2]), TRUE, lp)    \* left to right
+    [] t[1] = "un" -> <<t[2]>> \o Wrap(t[3], PrefixLevel, FALSE, lp)
+    [] t[1] = "idx" -> Wrap(t[2], PostfixLevel, FALSE, lp) \o <<"[">> \o MinP(t[3], lp) \o <<"]">>
+    [] t[1] = "call" -> <<t[2], "(">> \o MinArgsP(t[3], 1, lp) \o <<")">>
     \* the arms of a ternary take anything but another ternary; its condition anything above it
-    [] t[1] = "tern" -> Wrap(t[2], TernLevel, TRUE) \o <<"?">> \o Wrap(t[3], TernLevel, TRUE) \o <<":">> \o Wrap(t[4], TernLevel, TRUE)
-MinArgs(as, i) == IF i > Len(as) THEN <<>> ELSE Min(as[i]) \o (IF i < Len(as) THEN <<",">> ELSE <<>>) \o MinArgs(as, i + 1)
+    [] t[1] = "tern" -> Wrap(t[2], TernLevel, TRUE, lp) \o <<"?">> \o Wrap(t[3], TernLevel, TRUE, lp) \o <<":">> \o Wrap(t[4], TernLevel, TRUE, lp)
+MinArgsP(as, i, lp) == IF i > Len(as) THEN <<>> ELSE MinP(as[i], lp) \o (IF i < Len(as) THEN <<",">> ELSE <<>>) \o MinArgsP(as, i + 1, lp)
+Min(t) == MinP(t, FALSE)
+\* minimal grouping, but every identifier in redundant parentheses: "( a ) + ( b ) * ( c )"
+Leafy(t) == MinP(t, TRUE)
 
 Full(t) ==
   CASE t[1] = "id" -> <<t[2]>>
@@ -122,10 +126,11 @@ ParseLoop(ts, i, lv, left, intern) ==
         IF Failed(r) THEN PERR ELSE ParseLoop(ts, r[3], lv, <<"bin", ts[i], left, r[2]>>, intern))
   ELSE IF ts[i] = "?" /\ TernLevel > lv THEN
        (IF intern THEN PERR                                     \* a ternary inside a ternary
-        ELSE LET a == ParseE(ts, i + 1, TernLevel, TRUE) IN
+        \* (the arms are whole expressions: a "?" met while reading one belongs to it - and is refused there)
+        ELSE LET a == ParseE(ts, i + 1, -2, TRUE) IN
              IF Failed(a) THEN PERR
              ELSE IF a[3] > Len(ts) \/ ts[a[3]] # ":" THEN PERR
-             ELSE LET b == ParseE(ts, a[3] + 1, TernLevel, TRUE) IN
+             ELSE LET b == ParseE(ts, a[3] + 1, -2, TRUE) IN
                   IF Failed(b) THEN PERR ELSE ParseLoop(ts, b[3], lv, <<"tern", left, a[2], b[2]>>, intern))
   ELSE Ok(left, i)
 
